@@ -6,6 +6,7 @@ import sys, os, subprocess, json, shutil, re, tempfile
 V = os.path.dirname(os.path.dirname(os.path.abspath(__file__)))
 TESTS = "type_traits integral_type_convertions floating_point_type_convertions fixed_construction addition substraction multiplication division sqrt misc_functions sin tan atan".split()
 
+os.environ["VERIF_EVIDENCE_DIR"] = "/tmp/fm_evidence_seeded"
 def sh(cmd, **kw):
     return subprocess.run(cmd, shell=True, capture_output=True, text=True, **kw)
 
